@@ -71,7 +71,8 @@ Example C11_grammar_examples :
 Proof. vm_compute. repeat split. Qed.
 
 (* THE GRAMMAR, for every filter over presence atoms (has / not on a tag whose name is lower-case letters,
-   any name but the word "not"), of ANY size and nesting: the text written with single blanks, `and` chains
+   any name but the word "not") and comparison atoms (such a tag, any of the six operators, and a literal that is
+   a boolean, an unsigned run of digits or ANY string, written with the ZINC escapes), of ANY size and nesting: the text written with single blanks, `and` chains
    inside `or` chains, parentheses exactly where an operand is itself an `or` (under `and`) or a right-nested
    chain, is parsed back to exactly that tree.  Hence `and` binds tighter than `or`, both are
    left-associative over any number of operands, parentheses override, and tags called note, orb, andy...
@@ -86,8 +87,19 @@ Example C11_printer :
   pr_or_i (FOr (FAnd (has "a") (has "b")) (has "c")) = s_ "a and b or c" /\
   pr_or_i (FAnd (has "a") (FOr (has "b") (has "c"))) = s_ "a and (b or c)" /\
   pr_or_i (FAnd (has "a") (FAnd (has "b") (has "c"))) = s_ "a and (b and c)" /\
-  pr_or_i (FOr (has "note") (FOr (FMissing [s_ "orb"]) (has "andy"))) = s_ "note or (not orb or andy)".
+  pr_or_i (FOr (has "note") (FOr (FMissing [s_ "orb"]) (has "andy"))) = s_ "note or (not orb or andy)" /\
+  pr_or_i (FOr (FAnd (FCmp CLe [s_ "n"] (VNum NkFin (s_ "42") (s_ "42") None)) (FCmp CNe [s_ "s"] (VStr (s_ "a""b")))) (FCmp CEq [s_ "t"] (VBool true)))
+    = s_ "n <= 42 and s != ""a\""b"" or t == true".
 Proof. vm_compute. repeat split. Qed.
+(* non-vacuity of the comparison case *)
+Example C11_printable_cmp :
+  printable (FOr (FAnd (FCmp CLe [s_ "n"] (VNum NkFin (s_ "42") (s_ "42") None)) (FCmp CNe [s_ "s"] (VStr (s_ "a""b")))) (FCmp CEq [s_ "t"] (VBool true))).
+Proof.
+  assert (L : forall c, In c (s_ "nst42") -> is_lower c = true \/ is_dig c = true).
+  { intros c H. cbn in H. repeat destruct H as [H|H]; subst; try (left; reflexivity); try (right; reflexivity). contradiction. }
+  cbn [printable val_ok]. unfold simple_name.
+  repeat split; try discriminate; repeat constructor.
+Qed.
 
 Print Assumptions C11_grammar.
 Print Assumptions C11_compile_correct.
